@@ -224,8 +224,15 @@ func RunBuffer(c *sim.Ctx) {
 		}
 	}
 	nPush := knobInt(c, "pushes", 1, 2*n+2)
+	// events whose successful processing coincides with their children arriving by another route
+	// (a concurrent path connects them between Process and the re-check of the waiting copies)
+	sideConnect := map[int]bool{}
+	for j, ns := 0, knobInt(c, "side_connect_events", 0, 2); j < ns; j++ {
+		sideConnect[knobInt(c, fmt.Sprintf("side_connect_event%d", j), 0, n-1)] = true
+	}
 	if peakExact {
 		failProc, failCheck = map[int]bool{}, map[int]bool{}
+		sideConnect = map[int]bool{}
 	}
 
 	connected := map[int]bool{} // events the application holds (processed successfully or connected outside)
@@ -269,6 +276,23 @@ func RunBuffer(c *sim.Ctx) {
 				return errors.New("injected process failure")
 			}
 			connected[ce.ev] = true
+			if sideConnect[ce.ev] {
+				for ch := range evs {
+					okp, isChild := true, false
+					for _, p := range evs[ch].parents {
+						if p == ce.ev {
+							isChild = true
+						}
+						if !connected[p] {
+							okp = false
+						}
+					}
+					if isChild && okp && !connected[ch] {
+						connected[ch] = true
+						c.Probe("child_connected_by_another_route_during_process")
+					}
+				}
+			}
 			return nil
 		},
 		Released: func(e dag.Event, peer string, err error) {
@@ -401,7 +425,7 @@ func RunBuffer(c *sim.Ctx) {
 	}
 	_ = maxDepth
 	// (e) ample limits, nothing fails, every event of the (parents-closed) set pushed: all processed
-	if ample && len(failProc) == 0 && len(failCheck) == 0 {
+	if ample && len(failProc) == 0 && len(failCheck) == 0 && len(sideConnect) == 0 {
 		all := true
 		for i := 0; i < n; i++ {
 			if pushedEv[i] == 0 {
